@@ -18,22 +18,23 @@ vals.OBJ_LAYOUT[NG]["_all_modules"] = vals.parse_type("Bag[Node]")
 # ---------------------------------------------------------------- _add_edges_within_module_hierarchy (default view: names are opaque)
 # xs = parent_modules + [child]; hnode(lim, xs, k, x): x is the flattened name of one of the first k elements
 REG.macro("hnode", ["lim", "xs", "k", "x"], "exists(Int, lambda j: 0 <= j and j < k and x == flat(lim, seq_at(xs, j)))")
-# hhit(g0, lim, xs, i, a, b): step i links (a, b): a, b are the flattened names of elements i, i+1, they differ, and b is a node at that moment
-# (a node of the graph at entry, or one of the parents 0..i created so far; parent i itself is excluded by a != b, so "one of the parents 0..i-1")
-REG.macro("hhit", ["g0", "lim", "xs", "i", "a", "b"],
-          "a == flat(lim, seq_at(xs, i)) and b == flat(lim, seq_at(xs, i + 1)) and a != b and ((b in g0.nodes) or hnode(lim, xs, i, b))")
-REG.macro("hlinked", ["g0", "lim", "xs", "k", "a", "b"], "exists(Int, lambda i: 0 <= i and i < k and hhit(g0, lim, xs, i, a, b))")
+# hhit(g0, lim, ps, xs, i, a, b): step i links (a, b): a, b are the flattened names of elements i, i+1, they differ, and b is a node at that moment:
+# a node of the graph at entry or one of the parents -- ALL parents are created before the first pair is linked (fix 20: before it, the pair
+# (parent i, parent i+1) was tried before parent i+1 existed, so a single deep module stayed unlinked from its grand-parents)
+REG.macro("hhit", ["g0", "lim", "ps", "xs", "i", "a", "b"],
+          "a == flat(lim, seq_at(xs, i)) and b == flat(lim, seq_at(xs, i + 1)) and a != b and ((b in g0.nodes) or hnode(lim, ps, len(ps), b))")
+REG.macro("hlinked", ["g0", "lim", "ps", "xs", "k", "a", "b"], "exists(Int, lambda i: 0 <= i and i < k and hhit(g0, lim, ps, xs, i, a, b))")
 _XS = "(parent_modules + [old(child)])"
 _AEH_STATE = [
     "self._level_limit == old(self)._level_limit", "self._all_modules == old(self)._all_modules", "self._imports == old(self)._imports",
     # nodes: exactly the old ones and the flattened parents (NOT the child)
-    "forall(Node, lambda x: implies(x in self._graph.nodes, (x in old(self)._graph.nodes) or hnode(old(self)._level_limit, %XS%, %K%, x)))",
-    "forall(Node, lambda x: implies((x in old(self)._graph.nodes) or hnode(old(self)._level_limit, %XS%, %K%, x), x in self._graph.nodes))",
+    "forall(Node, lambda x: implies(x in self._graph.nodes, (x in old(self)._graph.nodes) or hnode(old(self)._level_limit, parent_modules, %KN%, x)))",
+    "forall(Node, lambda x: implies((x in old(self)._graph.nodes) or hnode(old(self)._level_limit, parent_modules, %KN%, x), x in self._graph.nodes))",
     # edges: exactly the old ones and the pairs linked by some step; all of them are hierarchy edges afterwards (an import edge on such a pair is overwritten)
-    "forall(Node, Node, lambda a, b: implies((a, b) in self._graph.edges, ((a, b) in old(self)._graph.edges) or hlinked(old(self)._graph, old(self)._level_limit, %XS%, %K%, a, b)))",
-    "forall(Node, Node, lambda a, b: implies(((a, b) in old(self)._graph.edges) or hlinked(old(self)._graph, old(self)._level_limit, %XS%, %K%, a, b), (a, b) in self._graph.edges))",
-    "forall(Node, Node, lambda a, b: implies((a, b) in self._graph.inh, ((a, b) in old(self)._graph.inh) or hlinked(old(self)._graph, old(self)._level_limit, %XS%, %K%, a, b)))",
-    "forall(Node, Node, lambda a, b: implies(((a, b) in old(self)._graph.inh) or hlinked(old(self)._graph, old(self)._level_limit, %XS%, %K%, a, b), (a, b) in self._graph.inh))",
+    "forall(Node, Node, lambda a, b: implies((a, b) in self._graph.edges, ((a, b) in old(self)._graph.edges) or hlinked(old(self)._graph, old(self)._level_limit, parent_modules, %XS%, %K%, a, b)))",
+    "forall(Node, Node, lambda a, b: implies(((a, b) in old(self)._graph.edges) or hlinked(old(self)._graph, old(self)._level_limit, parent_modules, %XS%, %K%, a, b), (a, b) in self._graph.edges))",
+    "forall(Node, Node, lambda a, b: implies((a, b) in self._graph.inh, ((a, b) in old(self)._graph.inh) or hlinked(old(self)._graph, old(self)._level_limit, parent_modules, %XS%, %K%, a, b)))",
+    "forall(Node, Node, lambda a, b: implies(((a, b) in old(self)._graph.inh) or hlinked(old(self)._graph, old(self)._level_limit, parent_modules, %XS%, %K%, a, b), (a, b) in self._graph.inh))",
 ]
 # consequences in a form that does not mention positions in parent_modules + [child] (what callers that know the parents only as a set can use)
 REG.macro("is_parent_at", ["lim", "ps", "x"], "exists(Int, lambda j: 0 <= j and j < len(ps) and x == flat(lim, seq_at(ps, j)))")
@@ -59,13 +60,26 @@ _AEH_WEAK = [
     "((flat(old(self)._level_limit, seq_at(parent_modules, len(parent_modules) - 1)), flat(old(self)._level_limit, old(child))) in self._graph.edges) and "
     "((flat(old(self)._level_limit, seq_at(parent_modules, len(parent_modules) - 1)), flat(old(self)._level_limit, old(child))) in self._graph.inh))",
 ]
+_AEH_LOWER = [
+    # fix 20: consecutive parents are always linked (both are nodes by then), whatever the graph contained before
+    "forall(Int, lambda j: implies(0 <= j and j + 1 < len(parent_modules) and flat(old(self)._level_limit, seq_at(parent_modules, j)) != flat(old(self)._level_limit, seq_at(parent_modules, j + 1)), "
+    "((flat(old(self)._level_limit, seq_at(parent_modules, j)), flat(old(self)._level_limit, seq_at(parent_modules, j + 1))) in self._graph.edges) and "
+    "((flat(old(self)._level_limit, seq_at(parent_modules, j)), flat(old(self)._level_limit, seq_at(parent_modules, j + 1))) in self._graph.inh)))",
+]
+_AEH_NODES_ONLY = [
+    "self._level_limit == old(self)._level_limit", "self._all_modules == old(self)._all_modules", "self._imports == old(self)._imports",
+    "forall(Node, lambda x: implies(x in self._graph.nodes, (x in old(self)._graph.nodes) or hnode(old(self)._level_limit, parent_modules, idx, x)))",
+    "forall(Node, lambda x: implies((x in old(self)._graph.nodes) or hnode(old(self)._level_limit, parent_modules, idx, x), x in self._graph.nodes))",
+    "self._graph.edges == old(self)._graph.edges", "self._graph.inh == old(self)._graph.inh",
+]
 REG.add(Contract(f"{NG}._add_edges_within_module_hierarchy", module=M_NX, kind="method",
                  params=dict(self=NG, parent_modules="Seq[Node]", child="Node"), returns="None", modifies=["self"],
-                 ensures=[e.replace("%K%", "len(parent_modules)").replace("%XS%", _XS) for e in _AEH_STATE] + _AEH_WEAK,
+                 ensures=[e.replace("%KN%", "len(parent_modules)").replace("%K%", "len(parent_modules)").replace("%XS%", _XS) for e in _AEH_STATE] + _AEH_WEAK + _AEH_LOWER,
                  locals=dict(all_modules="Seq[Node]"),
                  ghost_asserts=["forall(Int, lambda j: implies(0 <= j and j < len(parent_modules), seq_at(all_modules, j) == seq_at(parent_modules, j)))"],
-                 loops={0: dict(sig="for (parent, child) in zip(all_modules[:-1], all_modules[1:])",
-                                invariant=[e.replace("%K%", "idx").replace("%XS%", "all_modules") for e in _AEH_STATE])},
+                 loops={0: dict(sig="for parent in parent_modules", ordered=True, invariant=_AEH_NODES_ONLY),
+                        1: dict(sig="for (parent, child) in zip(all_modules[:-1], all_modules[1:])",
+                                invariant=[e.replace("%KN%", "len(parent_modules)").replace("%K%", "idx").replace("%XS%", "all_modules") for e in _AEH_STATE])},
                  properties=["C02", "C04", "C09", "C13"]))
 
 # ---------------------------------------------------------------- _add_all_modules_as_nodes (default view)
